@@ -731,5 +731,67 @@ Definition cases : list (cli_flags * cli_cfg * sys_outcome) := [
 	common.WriteFile(filepath.Join(outDir, "cases_c16_system.index.txt"), strings.Join(idx, "\n")+"\n")
 	meta.CaseFiles = append(meta.CaseFiles, "cases_c16_system.v")
 	meta.Distribution["system_cases"] = len(lines)
+
+	// the go/analysis front-ends over the same files: Model_System.analysis_run (theorem SYS_frontends_agree)
+	var alines, aidx []string
+	diagRE := regexp.MustCompile(`^(/[^\s:]+:\d+:\d+): (\w+): (.*)$`)
+	for _, c := range sels {
+		var args []string
+		if c.all {
+			args = append(args, "-enable-all")
+		}
+		if c.enable != nil {
+			args = append(args, "-enable="+*c.enable)
+		}
+		if c.disable != nil {
+			args = append(args, "-disable="+*c.disable)
+		}
+		args = append(args, "./...")
+		for _, exe := range []string{"go-critic-analysis", "gocritic-analysis"} {
+			stdout, stderr, code, err := common.RunSplit(180*time.Second, mod, env, filepath.Join(common.BinDir(), exe), args...)
+			runs++
+			if err != nil {
+				meta.Fail("C16/"+exe+"/e2e-run", err.Error(), args)
+				continue
+			}
+			seen := map[string]bool{}
+			var got []string
+			initErr := false
+			for _, l := range strings.Split(stdout+"\n"+stderr, "\n") {
+				if strings.Contains(l, "init error") {
+					initErr = true
+				} else if diagRE.MatchString(l) && !seen[l] {
+					seen[l] = true
+					got = append(got, l)
+				}
+			}
+			sort.Strings(got)
+			obs := fmt.Sprintf("AnExit %s %s", coqfmt.Z(int64(code)), coqfmt.StrList(got))
+			if initErr {
+				obs = "AnError"
+			}
+			alines = append(alines, fmt.Sprintf("  ({| af_all := %s; af_enable := %s; af_disable := %s |}, %s)", coqfmt.Bool(c.all), coqfmt.OptStr(c.enable), coqfmt.OptStr(c.disable), obs))
+			aidx = append(aidx, fmt.Sprintf("%s %v -> exit %d, %d lines init-error=%v", exe, args, code, len(got), initErr))
+		}
+	}
+	asrc := `From GC Require Import Base Model_Select Model_Cli Model_System.
+From GCgen Require Import Registry.
+Fixpoint ins (x : string) (l : list string) : list string :=
+  match l with [] => [x] | y :: r => if String.eqb x y then l else if String.leb x y then x :: l else y :: ins x r end.
+Definition sort_u (l : list string) : list string := fold_right ins [] l.
+Definition files : list sys_file := ` + coqfmt.List(fitems) + `.
+Definition out_eqb (a b : an_outcome) : bool :=
+  match a, b with
+  | AnError, AnError => true
+  | AnExit c1 l1, AnExit c2 l2 => Z.eqb c1 c2 && list_eqb String.eqb (sort_u l1) (sort_u l2)
+  | _, _ => false
+  end.
+Definition case_ok (k : an_flags * an_outcome) : bool := out_eqb (analysis_run registry (fst k) files) (snd k).
+Definition cases : list (an_flags * an_outcome) := [
+` + strings.Join(alines, ";\n") + "\n].\nDefinition M := Eval vm_compute in mismatches case_ok cases.\nPrint M.\n"
+	common.WriteFile(filepath.Join(outDir, "cases_c16_analysis.v"), asrc)
+	common.WriteFile(filepath.Join(outDir, "cases_c16_analysis.index.txt"), strings.Join(aidx, "\n")+"\n")
+	meta.CaseFiles = append(meta.CaseFiles, "cases_c16_analysis.v")
+	meta.Distribution["analysis_system_cases"] = len(alines)
 	return runs
 }
